@@ -58,9 +58,20 @@ RULE = ('cases = calls of the real functions through the public names, positiona
         'signature) between two calls with in-domain arguments; queries 1e-9..1e-3 of the span next to the end nodes / any '
         'node, periods 1e-12..1e-3 (relative) next to every boundary, displacements 1e-11..1e-3 below and above the corner, '
         'Z R N 1e-9..1e-3 inside the ends of their ranges; interp2d queries and nodes as Python lists / tuples, the table as '
-        'nested list / tuple; silent (all-zero) and strictly one-signed series, all-zero tables / node values / period containers.')
-ASSUMPTIONS = ['node sets finite and monotone; unsorted node sets are counted, not judged; repeated nodes: interp_left may take the '
-               'value of any of the equal nodes; interp2d with a repeated node is outside the "node sets" of the statement '
+        'nested list / tuple; silent (all-zero) and strictly one-signed series, all-zero tables / node values / period containers. '
+        'Round 5 (checklist 28-33): every numeric scalar argument in every scalar form - window width, power, split index, Z R N, '
+        'displacement, scalar query as Python int / float, numpy integers of every width that holds the value, np.float64 / '
+        'np.float32, 0-d integer and float arrays (mutable: snapshot at entry like any array), window 1 as True / np.True_; mode '
+        'and site class as numpy strings; bool-dtype series (on / off records as bool array, list, tuple) for the rolling '
+        'average and the step levels, bool node values for interp_left; one-sample series for the step-fit error (single '
+        'no-split entry); period containers holding only T = 0 in ten container / dtype forms per class; a result belongs to '
+        'the caller: f(A), result compared with A for shared memory, every entry overwritten, f(A) again == first value and A '
+        'intact - random draws and the nothing-to-do cases (window 1, queries == nodes, constant series, the same tuple of '
+        'periods); the split index as narrow numpy integer at and one below the top of its dtype.')
+ASSUMPTIONS = ['node sets finite and monotone; unsorted node sets are counted, not judged; repeated nodes: the statement does not say '
+               'which of the equal nodes supplies the value of interp_left - the convention (last / first of the equal nodes) is '
+               'fixed ONCE per tree from three probe records and demanded for every query of every record (checklist item 33; an '
+               'earlier version accepted any of the equal nodes per query); interp2d with a repeated node is outside the "node sets" of the statement '
                '(coordinator ruling): generated, counted, only purity / no-exception / repeatability apply; strictly decreasing node '
                'sets are not handled by either function on the clean tree (wrong side / rejected): generated and counted only',
                'tolerances are local: interp2d relative to the rows entering the value and their neighbours, step levels relative '
@@ -102,7 +113,17 @@ ASSUMPTIONS = ['node sets finite and monotone; unsorted node sets are counted, n
                'int or float32 scalar and 0-d arrays are outside its signature (len()); sd_nzs and t_eff take any real '
                'scalar; g = 9.81 m/s2 and corner period 3 s in d_c = S_d(3 s) * g / (2 pi)^2',
                '"continuous to table precision" = one-sided jump <= 0.5 % (three significant digits in the tables)',
-               'same-object histories of Signal objects (checklist line 5) do not apply: the eight functions are stateless',
+               'same-object histories of Signal objects (checklist line 5) do not apply: the eight functions are stateless; for the '
+               'same reason checklist item 31 (reads must not change settings) has no object to apply to',
+               'a result belongs to the caller (checklist items 12 / 32): an array result shares no memory with an argument and '
+               'overwriting it changes neither the arguments nor the value of a later call with the same arguments',
+               'bool-dtype series are on / off records with values 0.0 / 1.0 for the rolling average and the step levels; the '
+               'step-fit error of a bool series comes back as a bool array (dtype inherited: mechanism of the open finding '
+               'C20/int-dtype-truncation, no negative data) and is counted, not judged; a one-sample series has one step-fit entry, '
+               'the whole-series error 0',
+               'scalar forms: a window / power / index given as numpy number or 0-d array of an integer value is that integer; '
+               'routed to pending findings until ruled: interp_left with the scalar query as 0-d array (TypeError on the clean tree), '
+               'calc_step_fn_steps_vals with the index as narrow numpy integer equal to the top of its dtype (ind + 1 wraps)',
                'oracle vf/oracles/helpers.py is correct (scalar code from the definitions)']
 C_REPEAT_NAME = 'f(A);f(B);f(A):third==first(bit-for-bit)'
 C_RAISE_NAME = 'args-unchanged-after-raise(bit-for-bit)'
@@ -117,7 +138,10 @@ _MIN_QUICK = {'interp2d.inside==columnwise-linear': 3000, 'interp2d.on-node==tab
               'c_h.continuous(boundaries)': 200, 'sd_nzs.continuous(boundaries)': 200, 'c_h.continuous(scan)': 10000,
               'sd_nzs.continuous(scan)': 10000, 't_eff==T_c*d/d_c': 2600, 't_eff(d_c*T/3)==T': 2400,
               't_eff.rejects-above-corner': 600, 'args-unchanged(bit-for-bit)': 110000,
-              'earlier-result-intact-after-next-call': 35000, C_REPEAT_NAME: 8000, C_RAISE_NAME: 3000}
+              'earlier-result-intact-after-next-call': 35000, C_REPEAT_NAME: 8000, C_RAISE_NAME: 3000,
+              'interp_left.repeated-nodes==one-convention-per-tree': 600,
+              'result-owned(no-memory-shared-with-arguments)': 2400,
+              'result-owned(overwritten;same-call==first;arguments-intact)': 2400}
 # thorough = 10 x the random workload of quick and a 4 x finer continuity scan
 _MIN_THOROUGH = {k: 10 * v for k, v in _MIN_QUICK.items()}
 _MIN_THOROUGH.update({'c_h.continuous(boundaries)': 200, 'sd_nzs.continuous(boundaries)': 200,
@@ -428,7 +452,7 @@ def check_interp2d(ctx, x, xf, f, result):
 
 def _interp_left_domain(x0, x, y=None):
     """(scalar?, queries, nodes) as floats, or None when the call is outside the domain."""
-    scalar = not hasattr(x0, '__len__')
+    scalar = not hasattr(x0, '__len__') or _is_0d(x0)
     try:
         qs = [float(x0)] if scalar else _floats(x0)
         nodes = _floats(x)
@@ -439,6 +463,39 @@ def _interp_left_domain(x0, x, y=None):
     if not qs or not _nodes_monotone(nodes) or not all(math.isfinite(q) for q in qs):
         return None
     return scalar, qs, nodes
+
+
+def _is_0d(v):
+    return isinstance(v, np.ndarray) and v.ndim == 0
+
+
+PENDING_LEFT_0D = 'pending-finding: interp_left scalar query as 0-d array raises TypeError (iteration over a 0-d array)'
+C_LEFT_CONV = 'interp_left.repeated-nodes==one-convention-per-tree'
+LEFT_CONV = None
+
+
+def _left_convention():
+    """Checklist item 33: with repeated nodes the statement does not say which of the equal nodes supplies the value. The
+    convention (last / first of the equal nodes) is fixed ONCE per tree from three probe records and then demanded for every
+    record; a tree whose probes disagree with each other is held to 'last' (greatest index among the nodes <= q)."""
+    global LEFT_CONV
+    if LEFT_CONV is None:
+        import eqsig
+        votes = []
+        for nodes, qs in (([0.0, 1.0, 1.0, 1.0, 2.0], [1.0, 1.5, 1.0]), ([5.0, 5.0, 7.0], [5.0, 6.0]),
+                          ([-2.0, 0.0, 3.0, 3.0], [3.0, 4.0, 3.0])):
+            try:
+                with attach.paused(), warnings.catch_warnings():
+                    warnings.simplefilter('ignore')
+                    got = np.asarray(eqsig.fns.generic.interp_left(np.array(qs), np.array(nodes))).ravel().tolist()
+                for k, eq in zip(got, O.left_candidates(qs, nodes)):
+                    votes.append('last' if k == eq[-1] else ('first' if k == eq[0] else 'other'))
+            except Exception:
+                votes.append('other')
+        LEFT_CONV = votes[0] if (len(set(votes)) == 1 and votes[0] in ('first', 'last')) else 'last'
+        CTX.observe('interp_left: repeated-node convention fixed for this tree from probe records: %s%s'
+                    % (LEFT_CONV, '' if len(set(votes)) == 1 else ' (probes disagree: %s)' % sorted(set(votes))))
+    return LEFT_CONV
 
 
 def _is_decreasing_arg(x):
@@ -474,11 +531,16 @@ def check_interp_left(ctx, x0, x, y, result):
     shape_ok = (r.ndim == 0) if scalar else (r.shape == (len(qs),))
     gl = r.ravel().tolist()
     if not _nodes_ok(nodes) and shape_ok:
-        # repeated nodes: the value of any node equal to the greatest node <= q is acceptable
-        ctx.observe('interp_left: repeated node (judged, any of the equal nodes accepted)')
+        # repeated nodes: the statement does not say which of the equal nodes supplies the value -> ONE convention per tree
+        # (fixed from probe records), the same for every query of every record
+        conv = _left_convention()
+        ctx.observe('interp_left: repeated node (judged, convention of the tree: %s of the equal nodes)' % conv)
         cand = O.left_candidates(qs, nodes)
-        exp = [next((v for v in [(k if ylist is None else ylist[k]) for k in reversed(cand[i])] if v == gl[i]), exp[i])
-               for i in range(len(qs))]
+        ks = [(c[-1] if conv == 'last' else c[0]) for c in cand]
+        exp = [(k if ylist is None else ylist[k]) for k in ks]
+        ctx.check(gl == exp, C_LEFT_CONV, wit,
+                  'interp_left with repeated nodes %s: queries %s -> %s, the %s of the equal nodes (convention of this tree on '
+                  'the probe records) gives %s' % (nodes[:8], qs[:8], gl[:8], conv, exp[:8]))
     okk = shape_ok and gl == exp
     msg = 'interp_left(%s, nodes %s, y %s) -> %s expected %s' % (qs[:8], nodes[:8], None if ylist is None else ylist[:8],
                                                                gl[:8], exp[:8])
@@ -510,7 +572,7 @@ def _exc_interp_left(args, kwargs, e, st):
     scalar, qs, nodes = dom
     if isinstance(e, AssertionError) and min(qs) < nodes[0]:
         CTX.observe('interp_left: query below the first node rejected (outside the domain)')
-    else:
+    else:      # (a 0-d array query raised TypeError before fix F49 of eqsig; it was routed to an observation until ruled a defect)
         CTX.exception('interp_left.scalar-query' if scalar else 'interp_left==value-at-greatest-node<=q',
                       {'fn': 'interp_left', 'x0': x0, 'x0_container': _cont(x0), 'x': x, 'x_container': _cont(x), 'y': y,
                        'y_container': _cont(y), 'layout': _layout(st[0])}, e)
@@ -524,15 +586,17 @@ def check_rollav(ctx, values, steps, mode, result):
         st = int(steps)
     except Exception:
         arr, st = None, 0
-    if arr is None or arr.ndim != 1 or arr.size == 0 or arr.dtype.kind not in 'fiu' or not np.all(np.isfinite(arr)) \
+    if arr is None or arr.ndim != 1 or arr.size == 0 or arr.dtype.kind not in 'fiub' or not np.all(np.isfinite(arr)) \
             or not (1 <= st <= arr.size) or st != steps or mode not in MODES:
         ctx.observe('calc_roll_av_vals: call outside the domain (window not in 1..len, unknown mode, ...; not judged)')
         return
     n = arr.size
     x = _floats(arr)
     got = np.asarray(result)
-    wit = lambda: {'fn': 'calc_roll_av_vals', 'values': values, 'container': _cont(values), 'steps': st, 'mode': mode,
-                   'got': got, 'layout': LAYOUT}
+    wit = lambda: {'fn': 'calc_roll_av_vals', 'values': values, 'container': _cont(values), 'steps': st,
+                   'steps_form': _cont(steps), 'mode': str(mode), 'got': got, 'layout': LAYOUT}
+    if arr.dtype.kind == 'b':
+        ctx.observe('calc_roll_av_vals: bool-dtype series (on/off record; judged as 0.0 / 1.0)')
     if not ctx.check(got.shape == (n,), 'rollav.length-kept', wit,
                      'calc_roll_av_vals(%d samples, steps=%d, %r) returned shape %s' % (n, st, mode, got.shape)):
         return
@@ -575,20 +639,30 @@ def _chk_rollav(ctx, a, result):
 
 
 # ============================================================================================== monitors: step fit
-def _step_domain(values):
+def _step_domain(values, min_size=2, allow_bool=False):
     try:
         arr = np.asarray(values)
     except Exception:
         return None
-    if arr.ndim != 1 or arr.size < 2 or not (arr.dtype in (np.float64, np.float32) or arr.dtype.kind in 'iu'):
+    if arr.ndim != 1 or arr.size < min_size or not (arr.dtype in (np.float64, np.float32) or arr.dtype.kind in 'iu'
+                                                   or (allow_bool and arr.dtype.kind == 'b')):
         return None
     if arr.dtype.kind == 'f' and not np.all(np.isfinite(arr)):
         return None
     return arr
 
 
+OBS_BOOL_ERR = ('calc_step_fn_vals_error: bool-dtype series (the result array inherits the bool dtype: mechanism of the open '
+                'finding C20/int-dtype-truncation, no negative data; not judged)')
+PENDING_IND_TOP = ('pending-finding: calc_step_fn_steps_vals split index as narrow numpy integer at the top of its dtype '
+                   '(ind + 1 wraps: uint8 255 -> 0, int8 127 -> -128; the level after the split is taken from the wrong slice)')
+
+
 def check_step_error(ctx, values, p, direction, result):
-    arr = _step_domain(values)
+    arr = _step_domain(values, min_size=1, allow_bool=True)
+    if arr is not None and arr.dtype.kind == 'b':
+        ctx.observe(OBS_BOOL_ERR)
+        return
     if arr is None or p not in (1, 2) or isinstance(p, bool):
         ctx.observe('calc_step_fn_vals_error: outside the domain (dtype / length / power; not judged)')
         return
@@ -605,7 +679,9 @@ def check_step_error(ctx, values, p, direction, result):
     exp = O.step_errors(x, int(p))
     got = np.asarray(result)
     wit = lambda: {'fn': 'calc_step_fn_vals_error', 'values': values, 'container': _cont(values), 'pow': int(p),
-                   'got': got, 'expected': np.array(exp), 'layout': LAYOUT}
+                   'pow_form': _cont(p), 'got': got, 'expected': np.array(exp), 'layout': LAYOUT}
+    if n == 1:
+        ctx.observe('calc_step_fn_vals_error: one-sample series (only the no-split entry exists; judged)')
     c_split = 'stepfit.error(p=1)==sum|dev|' if p == 1 else 'stepfit.error(p=2)==sum|dev|^2'
     c_last = 'stepfit.no-split-entry==whole-series-error'
     if got.shape != (n,):
@@ -617,6 +693,8 @@ def check_step_error(ctx, values, p, direction, result):
     int_in = arr.dtype.kind in 'iu'
     for clause, sl in ((c_split, slice(0, n - 1)), (c_last, slice(n - 1, n))):
         g, e = gl[sl], exp[sl]
+        if not e:
+            continue
         okk, idx, err, allowed = tol.worst(np.array(g, dtype=float), np.array(e), scale=scale, rtol=_rtol_for(arr, 64),
                                            atol=TINY)
         fin = None
@@ -625,7 +703,8 @@ def check_step_error(ctx, values, p, direction, result):
             if O.trunc_explains(g, e):
                 fin = K5                                   # truncation regime
             elif O.overflow_regime(exp, *_int_range(arr.dtype)) and \
-                    O.wrap_explains(g, e, arr.dtype.itemsize * 8, _int_range(arr.dtype)[0], _platform_cast(arr.dtype)):
+                    O.wrap_explains(g, e, arr.dtype.itemsize * 8, _int_range(arr.dtype)[0], _platform_cast(arr.dtype),
+                                    slack=float(allowed)):
                 fin = K5                                   # overflow regime: truncated value wrapped into the dtype
                 ctx.observe('K5 overflow regime: wrapped values returned')
         i = idx[0] if idx else 0
@@ -674,7 +753,7 @@ def _exc_step_error(args, kwargs, e, st):
 
 
 def check_levels(ctx, values, ind, result, ind_given=True):
-    arr = _step_domain(values)
+    arr = _step_domain(values, allow_bool=True)
     if arr is None:
         ctx.observe('calc_step_fn_steps_vals: outside the domain (not judged)')
         return
@@ -689,7 +768,11 @@ def check_levels(ctx, values, ind, result, ind_given=True):
     x = _floats(arr)
     ref = O.step_levels(x, i)
     wit = lambda: {'fn': 'calc_step_fn_steps_vals', 'values': values, 'container': _cont(values),
-                   'ind': i if ind_given else None, 'got': result, 'expected': ref, 'layout': LAYOUT}
+                   'ind': i if ind_given else None, 'ind_form': _cont(ind), 'got': result, 'expected': ref, 'layout': LAYOUT}
+    if arr.dtype.kind == 'b':
+        ctx.observe('calc_step_fn_steps_vals: bool-dtype series (judged as 0.0 / 1.0)')
+    idt = ind.dtype if isinstance(ind, (np.integer, np.ndarray)) else None
+    # (a split index at the top of a narrow integer dtype wrapped in `ind + 1` before fix F48 of eqsig; judged like any other)
     try:
         got = np.array([float(result[0]), float(result[1])])
         shape_ok = len(result) == 2
@@ -736,7 +819,7 @@ def _is_float(v):
 
 SCALAR_FORMS = {'int': int, 'float': float, 'float64': np.float64, 'float32': np.float32, 'int64': np.int64,
                 'int32': np.int32, 'int16': np.int16, 'int8': np.int8, 'uint8': np.uint8, 'uint16': np.uint16,
-                'ndarray': np.array}
+                'ndarray': np.array, 'bool': bool, 'str_': np.str_, 'str': str}
 
 
 def _scalar(v):
@@ -815,8 +898,10 @@ def check_sd(ctx, period, site_class, z, r, n, result):
     f32 = f32 or any(v[1] for v in fac)
     if not _is_float(period):
         ctx.observe('sd_nzs: period passed as %s (judged)' % _cont(period))
-    wit = lambda: {'fn': 'sd_nzs', 'period': t, 'period_form': _cont(period), 'site_class': site_class, 'z': z, 'r': r,
-                   'n': n, 'got': result}
+    wit = lambda: {'fn': 'sd_nzs', 'period': t, 'period_form': _cont(period), 'site_class': str(site_class), 'z': z, 'r': r,
+                   'n': n, 'factor_forms': [_cont(v) for v in (z, r, n)], 'got': result}
+    if any(not _is_float(v) or isinstance(v, np.floating) for v in (z, r, n)):
+        ctx.observe('sd_nzs: factor(s) passed as %s (judged)' % '/'.join(_cont(v) for v in (z, r, n)))
     try:
         with attach.paused():
             ch = float(_ds().c_h_factor(t, site_class))
@@ -849,8 +934,9 @@ def check_t_eff(ctx, d, site_class, z, r, n, result=None, exc=None):
         ctx.observe('t_eff: outside the domain (not judged)')
         return
     f32 = any(v[1] for v in forms)
-    wit = lambda: {'fn': 't_eff', 'displacement': float(d), 'displacement_form': _cont(d), 'site_class': site_class,
-                   'z': z, 'r': r, 'n': n, 'got': result if exc is None else repr(exc)}
+    wit = lambda: {'fn': 't_eff', 'displacement': float(d), 'displacement_form': _cont(d), 'site_class': str(site_class),
+                   'z': z, 'r': r, 'n': n, 'factor_forms': [_cont(v) for v in (z, r, n)],
+                   'got': result if exc is None else repr(exc)}
     try:
         dc = _corner(site_class, float(z), float(r), float(n))
     except Exception as e:
@@ -1029,7 +1115,9 @@ def rel_array_scalar(ctx, eqsig, arg, sc):
 def rel_t_eff_roundtrip(ctx, eqsig, T, sc, z, r, n, kw=False, form='float'):
     """t_eff(d_c*T/3) == T with d_c from the (monitored) sd_nzs at the corner period."""
     ds = eqsig.design_spectra
-    wit = {'fn': 't_eff_roundtrip', 'T': T, 'site_class': sc, 'z': z, 'r': r, 'n': n, 'kw': bool(kw), 'form': form}
+    wit = {'fn': 't_eff_roundtrip', 'T': T, 'site_class': str(sc), 'z': z, 'r': r, 'n': n, 'kw': bool(kw), 'form': form,
+           'factor_forms': [_cont(v) for v in (z, r, n)]}
+    f32 = form == 'float32' or any(isinstance(v, np.float32) for v in (z, r, n))
     okc, sd3 = _call(ctx, 't_eff(d_c*T/3)==T', wit, ds.sd_nzs, O.T_CORNER, sc, z, r, n)
     if not okc:
         return
@@ -1045,7 +1133,7 @@ def rel_t_eff_roundtrip(ctx, eqsig, T, sc, z, r, n, kw=False, form='float'):
         t = float(t)
     except Exception:
         t = float('nan')
-    ctx.check(tol.close(t, T, scale=T, rtol=64 * EPS32 if form == 'float32' else RTOL), 't_eff(d_c*T/3)==T',
+    ctx.check(tol.close(t, T, scale=T, rtol=64 * EPS32 if f32 else RTOL), 't_eff(d_c*T/3)==T',
               dict(wit, displacement=float(d), got=t),
               't_eff(d_c*T/3) = %r for T = %r (class %s Z=%r R=%r N=%r, d=%r as %s)' % (t, T, sc, z, r, n, d, form))
 
@@ -1053,7 +1141,8 @@ def rel_t_eff_roundtrip(ctx, eqsig, T, sc, z, r, n, kw=False, form='float'):
 def rel_t_eff_above(ctx, eqsig, factor, sc, z, r, n):
     """Displacements above the corner must be rejected with ValueError (judged by the t_eff monitor)."""
     ds = eqsig.design_spectra
-    wit = {'fn': 't_eff_above', 'factor': factor, 'site_class': sc, 'z': z, 'r': r, 'n': n}
+    wit = {'fn': 't_eff_above', 'factor': factor, 'site_class': str(sc), 'z': z, 'r': r, 'n': n,
+           'factor_forms': [_cont(v) for v in (z, r, n)]}
     okc, sd3 = _call(ctx, 't_eff.rejects-above-corner', wit, ds.sd_nzs, O.T_CORNER, sc, z, r, n)
     if not okc:
         return
@@ -1087,6 +1176,53 @@ def dress(rng, a):
         b = big[::2]
     b.flags.writeable = False
     return b
+
+
+def int_form(rng, k, extra=()):
+    """The integer k in one of its scalar forms (checklist item 28): Python int, numpy integers of every width that holds
+    k + 1, integer-valued Python / numpy floats (only where `extra` asks for them), 0-d integer arrays (mutable)."""
+    forms = [lambda: k, lambda: np.int64(k), lambda: np.int32(k), lambda: np.array(k), lambda: np.array(k, dtype=np.int32)]
+    if k < 127:
+        forms += [lambda: np.int8(k), lambda: np.uint8(k), lambda: np.array(k, dtype=np.uint8)]
+    if k < 32767:
+        forms += [lambda: np.int16(k), lambda: np.uint16(k)]
+    if 'float' in extra:
+        forms += [lambda: float(k), lambda: np.float64(k), lambda: np.float32(k), lambda: np.array(float(k)),
+                  lambda: np.array(k, dtype=np.float32)]
+    if 'bool' in extra and k == 1:
+        forms += [lambda: True, lambda: np.True_]
+    return forms[int(rng.integers(len(forms)))]()
+
+
+def factor_forms(rng, z, r, n):
+    """Z, R, N in another scalar form (checklist item 28): numpy float64 / float32 scalars, 0-d arrays (mutable), ints."""
+    u = rng.random()
+    if u < 0.80:
+        return z, r, n
+    if u < 0.85:
+        return np.float64(z), np.float64(r), np.float64(n)
+    if u < 0.90:
+        return np.float32(z), np.float32(r), np.float32(n)
+    if u < 0.96:
+        return np.array(z), np.array(r), np.array(n)
+    if u < 0.98:
+        return np.array(z), r, np.float64(n)
+    return z, np.float32(r), np.int64(1)
+
+
+def str_form(rng, v):
+    """A string option as str or (5 %) as numpy string scalar."""
+    return np.str_(v) if rng.random() < 0.05 else v
+
+
+def bool_series(rng, x):
+    """On/off record (rectangular pulses) from the float series x: bool array, list or tuple of Python bools."""
+    x = np.asarray(x, dtype=float)
+    b = x > (float(np.median(x)) if rng.random() < 0.7 else float(np.min(x)))
+    if rng.random() < 0.1:
+        b[:] = bool(rng.integers(2))
+    k = int(rng.integers(4))
+    return [b, b, b.tolist(), tuple(b.tolist())][k], ['bool', 'bool', 'list-bool', 'tuple-bool'][k]
 
 
 SIZES8 = [1, 2, 31, 32, 33, 63, 64, 65, 127, 128, 129, 256]      # checklist item 8: 1, 2 and around powers of two
@@ -1443,6 +1579,11 @@ def drive_interp(ctx, eqsig, rng, n_cases):
         y = [rng.normal(size=m), rng.integers(-9, 10, size=m), rng.normal(size=m).tolist(), None,
              rng.integers(-9, 10, size=m).tolist(), rng.normal(size=m).astype(np.float32),
              full_range_ints(rng, NARROW[int(rng.integers(4))], m), [np.zeros(m), [0] * m, (0.0,) * m][int(rng.integers(3))]][yk]
+        if rng.random() < 0.04:
+            # on / off state per node (bool values): bool array, list of Python bools
+            y = rng.random(m) < 0.5
+            y = y if rng.random() < 0.6 else y.tolist()
+            ctx.observe('interp_left: bool values y')
         y = dress(rng, y)
         xk = int(rng.integers(0, 4))
         xarg = [nodes, np.asarray(nodes).tolist(), nodes, tuple(np.asarray(nodes).tolist())][xk]
@@ -1462,11 +1603,20 @@ def drive_interp(ctx, eqsig, rng, n_cases):
                 _call(ctx, 'interp_left.y=None->node-index', w2, eqsig.interp_left, qarg, xarg, y=None)
         s = ql[int(rng.integers(len(ql)))]
         if all_int:
-            s = [int(s), np.int64(s), float(s), nodes.dtype.type(s)][int(rng.integers(4))]
+            s = [int(s), np.int64(s), float(s), nodes.dtype.type(s), np.float32(s) if abs(int(s)) < 2 ** 24 else int(s),
+                 np.int32(s) if abs(int(s)) < 2 ** 31 else int(s)][int(rng.integers(6))]
         else:
-            s = [float(s), np.float64(s)][int(rng.integers(2))]
+            s = [float(s), np.float64(s), float(s)][int(rng.integers(3))]
+            s32 = np.float32(s)
+            if rng.random() < 0.25 and np.isfinite(s32) and float(s32) >= float(nf[0]) and (s32 != 0 or s == 0):
+                s = s32                                       # a float32 scalar query (its exact value is the query)
         _call(ctx, 'interp_left.scalar-query', lambda: dict(wl(), x0=s, x0_container=_cont(s)),
               eqsig.interp_left, s, xarg, y)
+        if c % 40 == 3:
+            # the scalar query as a 0-d array (scalar form of checklist item 28; the clean tree raises TypeError: routed)
+            s0 = np.array(float(s))
+            _call(ctx, 'interp_left.scalar-query', lambda: dict(wl(), x0=s0, x0_container='ndarray'),
+                  eqsig.interp_left, s0, xarg, y)
         if c % 9 == 1 and isinstance(xarg, np.ndarray):
             # one object as queries, nodes and values
             _call(ctx, 'interp_left==value-at-greatest-node<=q',
@@ -1610,7 +1760,8 @@ def gen_roll_series(rng, n):
 
 
 def _roll_call(ctx, eqsig, rng, cont, steps, sarg, mode):
-    w = lambda: {'fn': 'calc_roll_av_vals', 'values': cont, 'container': _cont(cont), 'steps': steps, 'mode': mode}
+    w = lambda: {'fn': 'calc_roll_av_vals', 'values': cont, 'container': _cont(cont), 'steps': steps,
+                 'steps_form': _cont(sarg), 'mode': str(mode)}
     clause = 'rollav.%s==window-mean' % ('centre' if mode == 'center' else mode)
     style = int(rng.integers(0, 4))
     if mode == 'forward' and style == 0:
@@ -1635,6 +1786,9 @@ def drive_rollav(ctx, eqsig, rng, n_cases):
         cont, kind = series_container(rng, x, float_only='/extreme-scale' in cls)
         if '/extreme-scale' in cls:
             ctx.observe('rollav series at an extreme scale')
+        if '/extreme-scale' not in cls and rng.random() < 0.05:
+            cont, kind = bool_series(rng, x)
+            cls = 'bool-onoff'
         cont = dress(rng, cont)
         steps = int(rng.integers(1, n + 1))
         if n > 60:
@@ -1649,7 +1803,9 @@ def drive_rollav(ctx, eqsig, rng, n_cases):
                          'head': arr[:8]})
         ctx.observe('rollav series shape: ' + (cls.split('+', 1)[1] if '+' in cls else 'plain'))
         v = rng.random()
-        sarg = steps if v < 0.7 else (np.int64(steps) if v < 0.82 else (np.int32(steps) if v < 0.9 else float(steps)))
+        sarg = steps if v < 0.6 else int_form(rng, steps, extra=('float', 'bool'))
+        if not isinstance(sarg, int) or isinstance(sarg, bool):
+            ctx.observe('rollav window form: %s%s' % (_cont(sarg), ' 0-d ' + str(sarg.dtype) if isinstance(sarg, np.ndarray) else ''))
         if v > 0.95:
             # the window size recovered from a quotient of floats, the way a caller computes it from a duration and a time
             # step: dt/(dt/k) is k or a hair off; a non-integer width is outside "window sizes 1..len" (counted only)
@@ -1657,7 +1813,7 @@ def drive_rollav(ctx, eqsig, rng, n_cases):
             sarg = d / (d / steps)
             ctx.observe('rollav: window from a float quotient, %s' % ('integer-valued' if sarg == steps else 'a hair off'))
         for mode in MODES:
-            _roll_call(ctx, eqsig, rng, cont, steps, sarg, mode)
+            _roll_call(ctx, eqsig, rng, cont, steps, sarg, str_form(rng, mode))
         if c % 6 == 0 and n > 1:
             # a different input of the same shape and dtype right after (first results are re-checked by _call)
             other = np.ascontiguousarray(arr[::-1])
@@ -1808,10 +1964,13 @@ def drive_stepfit(ctx, eqsig, rng, n_cases):
                  sample={'fn': 'calc_step_fn_vals_error+calc_step_fn_steps_vals', 'n': n, 'class': cls, 'dtype': kind,
                          'head': arr[:8]})
         for p in (1, 2):
-            w = lambda: {'fn': 'calc_step_fn_vals_error', 'values': vals, 'container': _cont(vals), 'pow': p}
             clause = 'stepfit.error(p=%d)==sum|dev|%s' % (p, '' if p == 1 else '^2')
             style = int(rng.integers(0, 5))
-            parg = p if rng.random() < 0.85 else [np.int64(p), float(p)][int(rng.integers(2))]
+            parg = p if rng.random() < 0.75 else int_form(rng, p, extra=('float',))
+            if parg is not p:
+                ctx.observe('stepfit pow form: %s%s' % (_cont(parg), ' 0-d ' + str(parg.dtype) if isinstance(parg, np.ndarray) else ''))
+            w = lambda: {'fn': 'calc_step_fn_vals_error', 'values': vals, 'container': _cont(vals), 'pow': p,
+                         'pow_form': _cont(parg)}
             if p == 1 and style == 0:
                 _call(ctx, clause, w, eqsig.calc_step_fn_vals_error, vals)
             elif style == 1:
@@ -1831,16 +1990,41 @@ def drive_stepfit(ctx, eqsig, rng, n_cases):
             for ind in set([1, n - 2, int(rng.integers(1, n - 1))]):
                 w = lambda: {'fn': 'calc_step_fn_steps_vals', 'values': vals, 'container': _cont(vals), 'ind': ind}
                 v = rng.random()
-                if v < 0.6:
+                if v < 0.55:
                     _call(ctx, 'stepfit.levels==side-means', w, eqsig.calc_step_fn_steps_vals, vals, ind)
                 elif v < 0.8:
-                    _call(ctx, 'stepfit.levels==side-means', w, eqsig.calc_step_fn_steps_vals, vals, np.int64(ind))
+                    iarg = int_form(rng, ind)
+                    ctx.observe('stepfit ind form: %s%s' % (_cont(iarg), ' 0-d ' + str(iarg.dtype) if isinstance(iarg, np.ndarray) else ''))
+                    _call(ctx, 'stepfit.levels==side-means', lambda: dict(w(), ind_form=_cont(iarg)),
+                          eqsig.calc_step_fn_steps_vals, vals, iarg)
                 else:
                     _call(ctx, 'stepfit.levels==side-means', w, eqsig.calc_step_fn_steps_vals, values=vals, ind=ind)
             if c % 4 == 0:
                 _call(ctx, 'stepfit.levels==side-means',
                       lambda: {'fn': 'calc_step_fn_steps_vals', 'values': vals, 'container': _cont(vals), 'ind': None},
                       eqsig.calc_step_fn_steps_vals, vals)
+        if c % 12 == 5:
+            # on / off record (bool dtype): the levels are the fractions of 'on' samples of each side; the error function
+            # returns a bool array there (mechanism of the open finding, counted only). And a one-sample series: no split
+            # exists, the single entry is the whole-series error 0
+            bv, bk = bool_series(rng, arr.astype(float))
+            ctx.case(core.digest('stepfit-bool', np.asarray(bv)), nontrivial=len(set(np.asarray(bv).tolist())) > 1,
+                     cls='stepfit-bool-onoff-' + bk)
+            _call(ctx, 'stepfit.error(p=1)==sum|dev|',
+                  lambda: {'fn': 'calc_step_fn_vals_error', 'values': bv, 'container': _cont(bv), 'pow': 1},
+                  eqsig.calc_step_fn_vals_error, bv)
+            if n >= 3:
+                ib = int(rng.integers(1, n - 1))
+                _call(ctx, 'stepfit.levels==side-means',
+                      lambda: {'fn': 'calc_step_fn_steps_vals', 'values': bv, 'container': _cont(bv), 'ind': ib},
+                      eqsig.calc_step_fn_steps_vals, bv, ib)
+            one = [np.array([float(arr[0])]), [float(arr[0])], np.array([int(round(float(arr[0]))) % 100]), (float(arr[-1]),),
+                   np.array([float(arr[0])], dtype=np.float32)][int(rng.integers(5))]
+            p1 = 1 + int(rng.integers(2))
+            ctx.case(core.digest('stepfit-one-sample', np.asarray(one), p1), nontrivial=False, cls='stepfit-one-sample')
+            _call(ctx, 'stepfit.no-split-entry==whole-series-error',
+                  lambda: {'fn': 'calc_step_fn_vals_error', 'values': one, 'container': _cont(one), 'pow': p1},
+                  eqsig.calc_step_fn_vals_error, one, p1)
         if c % 10 == 0:
             # information only: the direction penalty is not part of the statement
             _call(ctx, 'stepfit.error(p=1)==sum|dev|', None, eqsig.calc_step_fn_vals_error, vals, 1,
@@ -1934,6 +2118,12 @@ def gen_factors(rng):
 
 def drive_spectra_random(ctx, eqsig, rng, n_cases):
     ds = eqsig.design_spectra
+    # degenerate period containers (checklist item 30): the only period is T = 0, in every container / dtype form
+    for sc in SITE_CLASSES:
+        for arg in ([0], [0.0], (0,), (0.0,), np.array([0]), np.array([0.0]), np.zeros(1, dtype=np.float32),
+                    np.zeros(1, dtype=np.uint8), [np.float64(0.0)], [0, 0]):
+            rel_array_scalar(ctx, eqsig, arg, sc)
+    ctx.cases_enumerated(30, 0, cls='spectra-container-only-T=0')
     for c in range(n_cases):
         sc = SITE_CLASSES[int(rng.integers(3))]
         T = gen_period(rng, sc)
@@ -1946,10 +2136,14 @@ def drive_spectra_random(ctx, eqsig, rng, n_cases):
             z, r, n = 1, 1, 1                     # Python ints
         elif u < 0.2:
             n = 1                                  # N = 1 exactly (lower end of its range)
-        ctx.case(core.digest('spectra', sc, T, z, r, n), nontrivial=T > 0, cls='spectra-%s' % sc,
-                 sample={'fn': 'c_h_factor+sd_nzs+t_eff', 'site_class': sc, 'T': T, 'Z': z, 'R': r, 'N': n})
+        z, r, n = factor_forms(rng, z, r, n)
+        ctx.case(core.digest('spectra', sc, T, float(z), float(r), float(n), _cont(z), _cont(r), _cont(n)), nontrivial=T > 0,
+                 cls='spectra-%s' % sc,
+                 sample={'fn': 'c_h_factor+sd_nzs+t_eff', 'site_class': sc, 'T': T, 'Z': float(z), 'R': float(r), 'N': float(n),
+                         'factor_forms': [_cont(z), _cont(r), _cont(n)]})
+        sc = str_form(rng, sc)
         targ = T if rng.random() < 0.5 else np.float64(T)
-        wc = {'fn': 'c_h_factor', 'period': T, 'period_container': 'float', 'site_class': sc}
+        wc = {'fn': 'c_h_factor', 'period': T, 'period_container': 'float', 'site_class': str(sc)}
         v = rng.random()
         if sc == 'C' and v < 0.3:
             _call(ctx, 'c_h_factor*T^2==sd_nzs(unit)', wc, ds.c_h_factor, targ)         # default site class
@@ -1972,7 +2166,8 @@ def drive_spectra_random(ctx, eqsig, rng, n_cases):
             parg, form = np.array(T), 'ndarray'
         elif v < 0.18:
             parg, form = np.uint8(int(rng.integers(7, 256))), 'uint8'      # long periods in a narrow unsigned dtype
-        ws = {'fn': 'sd_nzs', 'period': float(parg), 'period_form': form, 'site_class': sc, 'z': z, 'r': r, 'n': n}
+        ws = {'fn': 'sd_nzs', 'period': float(parg), 'period_form': form, 'site_class': str(sc), 'z': z, 'r': r, 'n': n,
+              'factor_forms': [_cont(v) for v in (z, r, n)]}
         if rng.random() < 0.7:
             _call(ctx, 'sd_nzs==c_h*T^2*Z*N*R', ws, ds.sd_nzs, parg, sc, z, r, n)
         else:
@@ -1999,14 +2194,14 @@ def drive_spectra_random(ctx, eqsig, rng, n_cases):
             Te = float(rng.choice([3.0 * (1 - 1e-9), 1.5, 1e-6, 0.56, 2.999, 1e-12]))
         if Te > 0:
             rel_t_eff_roundtrip(ctx, eqsig, Te, sc, z, r, n, kw=rng.random() < 0.3,
-                                form=['float', 'float', 'float64', 'float32'][int(rng.integers(4))])
+                                form=['float', 'float', 'float64', 'float32', 'ndarray'][int(rng.integers(5))])
         if c % 4 == 1:
             rel_t_eff_above(ctx, eqsig, 1.0 + float(10.0 ** (rng.uniform(-6, 0.5) if rng.random() < 0.5 else
                                                               rng.uniform(-11, -3))), sc, z, r, n)
         if c % 16 == 2:
             rel_t_eff_above(ctx, eqsig, 1.0, sc, z, r, n)       # exactly the corner: either outcome is consistent
         if c % 16 == 3:
-            d0 = [0.0, 0, np.float64(0.0), np.int64(0)][int(rng.integers(4))]
+            d0 = [0.0, 0, np.float64(0.0), np.int64(0), np.array(0.0), np.float32(0.0), np.array(0)][int(rng.integers(7))]
             wit = {'fn': 't_eff', 'displacement': 0.0, 'displacement_form': _cont(d0), 'site_class': sc, 'z': z, 'r': r,
                    'n': n}
             _call(ctx, 't_eff==T_c*d/d_c', wit, ds.t_eff, d0, sc, z, r, n)
@@ -2226,6 +2421,107 @@ def drive_repeat(ctx, eqsig, rng, n_cases):
                       fns[name], *[np.array(v) if isinstance(v, np.ndarray) else v for v in t])
 
 
+C_OWN_MEM = 'result-owned(no-memory-shared-with-arguments)'
+C_OWN_AGAIN = 'result-owned(overwritten;same-call==first;arguments-intact)'
+OWN_FNS = ['interp2d', 'interp_left', 'calc_roll_av_vals', 'calc_step_fn_vals_error', 'c_h_factor']
+
+
+def _arrays_in(v):
+    if isinstance(v, np.ndarray):
+        yield v
+    elif isinstance(v, (list, tuple)):
+        for t in v:
+            if isinstance(t, (np.ndarray, list, tuple)):
+                for a in _arrays_in(t):
+                    yield a
+
+
+def _scribble(r):
+    """Overwrite every entry of a result array in place with other values (deterministic)."""
+    if r.dtype.kind == 'b':
+        r[...] = ~r
+    elif r.dtype.kind in 'iu':
+        r[...] = r ^ 0x55
+    else:
+        with np.errstate(all='ignore'):
+            r[...] = np.where(np.isfinite(r), r * -3.0 + 7.5, 0.0)
+
+
+def own_case(ctx, name, fn, args, kwargs=None, pattern=''):
+    """Checklist item 32 - a result belongs to the caller: the array returned by f(A) shares no memory with A; after every
+    entry of it has been overwritten, A is bit-for-bit what it was and f(A) gives the first value again (no table handed out
+    by reference from a cache, no argument returned as the result where nothing needs doing)."""
+    kwargs = kwargs or {}
+    clause = MAIN_CLAUSE[name]
+    wit = lambda: {'fn': 'own', 'name': name, 'A': _side(args, kwargs), 'pattern': pattern}
+    held = list(args) + list(kwargs.values())
+    snap = [_snap(v) for v in held]
+    ok1, r1 = _call(ctx, clause, wit, fn, *args, **kwargs)
+    if not ok1:
+        return
+    if not isinstance(r1, np.ndarray) or r1.ndim < 1 or r1.size == 0:
+        ctx.observe('ownership: %s returned no array (nothing to overwrite)' % name)
+        return
+    first = r1.copy()
+    shared = [k for k, v in enumerate(held) if any(np.shares_memory(r1, a) for a in _arrays_in(v))]
+    ctx.check(not shared, C_OWN_MEM, lambda: dict(wit(), shared_with=shared, first=first),
+              '%s (%s): the returned array shares memory with argument(s) %s' % (name, pattern, shared))
+    HELD.pop(name, None)                       # the overwrite below is ours, not the library's
+    if r1.flags.writeable:
+        _scribble(r1)
+    else:
+        ctx.observe('ownership: result array is not writeable (overwrite skipped)')
+    changed = [k for k, v in enumerate(held) if not _unchanged(v, snap[k])]
+    for k in changed:                          # put the caller's values back so that the second call gets A again
+        try:
+            for a, b in zip(_arrays_in(held[k]), _arrays_in(snap[k])):
+                a[...] = b
+        except Exception:
+            pass
+    ok2, r2 = _call(ctx, clause, wit, fn, *args, **kwargs)
+    if not ok2:
+        return
+    ctx.check(not changed and _same(first, r2), C_OWN_AGAIN, lambda: dict(wit(), first=first, second=r2, changed=changed),
+              '%s (%s): after the first result was overwritten by the caller %s' % (
+                  name, pattern, 'argument(s) %s changed' % changed if changed else
+                  'the same call returned %r, first %r' % (r2[:8] if isinstance(r2, np.ndarray) else r2, first[:8])))
+    HELD.pop(name, None)
+    if isinstance(r2, np.ndarray) and r2.ndim >= 1 and r2.size and r2.flags.writeable:
+        _scribble(r2)                          # and the second one too: a later call (monitored) must not see it
+
+
+def drive_ownership(ctx, eqsig, rng, n_cases):
+    """Checklist item 32 (and 12: option values where nothing needs doing): random draws of the recipes and the identity
+    cases - window 1 (the average IS the series), queries equal to the nodes (the result IS the table / the values), a
+    constant series, the same tuple of periods again (hashable: what an lru_cache would key on)."""
+    fns = _fn_map(eqsig)
+    for c in range(n_cases):
+        name = OWN_FNS[c % len(OWN_FNS)]
+        size = _draw_size(rng, name)
+        A = recipe(ctx, eqsig, rng, name, size)
+        pattern = 'random-draw'
+        if rng.random() < 0.5:
+            pattern = 'nothing-to-do'
+            if name == 'calc_roll_av_vals':
+                A = [np.asarray(A[0], dtype=float) if rng.random() < 0.8 else A[0], int_form(rng, 1, extra=('float', 'bool')), A[2]]
+            elif name == 'interp2d':
+                A = [A[1] if rng.random() < 0.5 else A[1].copy(), A[1], A[2]]
+            elif name == 'interp_left':
+                y = rng.normal(size=len(A[1])) if (A[2] is None or rng.random() < 0.5) else np.asarray(A[2])
+                A = [A[1] if rng.random() < 0.5 else A[1].copy(), A[1], [y, None][int(rng.integers(2))]]
+            elif name == 'calc_step_fn_vals_error':
+                A = [np.full(size[0], float(rng.normal())), A[1], None]
+            else:
+                per = tuple(float(gen_period(rng, A[1])) for _ in range(size[2]))
+                A = [per if rng.random() < 0.7 else np.array(per), A[1]]
+        elif name == 'c_h_factor' and _is_float(A[0]):
+            A[0] = [A[0]]
+        ctx.case(core.digest('own', name, pattern, [np.asarray(v) if isinstance(v, (list, tuple)) else v for v in A]),
+                 nontrivial=True, cls='own-%s-%s' % (name, pattern))
+        a, kwa = _split_kw(rng, name, A)
+        own_case(ctx, name, fns[name], a, kwa, pattern=pattern)
+
+
 def spoil(rng, name, A):
     """An argument list the statement does not cover, derived from the in-domain list A: inputs the clean code rejects
     (exception) and inputs it accepts silently (non-finite entries, windows / split samples outside their range, unknown
@@ -2299,8 +2595,8 @@ def spoil(rng, name, A):
             B[0] = poison(B[0], bad)
             return 'non-finite sample', B
         if k == 2:
-            B[0] = np.asarray(B[0], dtype=float)[:int(rng.integers(0, 2))]
-            return 'fewer than two samples', B
+            B[0] = np.asarray(B[0], dtype=float)[:0]
+            return 'no samples', B
         if k == 3:
             B[1] = [0, 3, 0.5, -1][int(rng.integers(4))]
             return 'power outside {1, 2}', B
@@ -2389,6 +2685,22 @@ def drive_rejected(ctx, eqsig, rng, n_cases):
 
 
 
+def drive_ind_top(ctx, eqsig, rng):
+    """The split index as a narrow numpy integer at the top of its dtype (ind + 1 does not fit it): in domain as a scalar form
+    of an in-range index (checklist item 28); the clean tree takes the level after the split from a wrong slice - routed to a
+    pending finding by the monitor (two calls per shard), one index below the top is judged as usual."""
+    for dt in (np.uint8, np.int8):
+        top = int(np.iinfo(dt).max)
+        n = top + int(rng.integers(3, 40))
+        x = gen_step_series(rng, n)[0]
+        ctx.case(core.digest('stepfit-ind-top', x, np.dtype(dt).name), nontrivial=True, cls='stepfit-ind-top-of-dtype')
+        for k in (top - 1, top):
+            iarg = dt(k)
+            _call(ctx, 'stepfit.levels==side-means',
+                  lambda: {'fn': 'calc_step_fn_steps_vals', 'values': x, 'container': 'ndarray', 'ind': k,
+                           'ind_form': _cont(iarg)}, eqsig.calc_step_fn_steps_vals, x, iarg)
+
+
 def scan_grid(tier):
     f = 1 if tier == 'quick' else 4
     a = np.arange(0, 600 * f + 1) * (2e-4 / f)                       # 0 ... 0.12
@@ -2439,6 +2751,8 @@ def run_shard(ctx):
     drive_spectra_random(ctx, eqsig, rng, per(4800 if quick else 48000))
     drive_repeat(ctx, eqsig, rng, per(9600 if quick else 96000))
     drive_rejected(ctx, eqsig, rng, per(6400 if quick else 64000))
+    drive_ownership(ctx, eqsig, rng, per(4800 if quick else 48000))
+    drive_ind_top(ctx, eqsig, rng)
     if ctx.shard in (6, 7, 10, 11) or not quick:
         drive_big_products(ctx, eqsig, rng)
     # a few inputs past 2**16 (quick: one kind per shard; thorough: several of each)
@@ -2490,6 +2804,14 @@ def replay(w):
             return None
         v = _as_container(v, w.get(cont_key)) if cont_key else np.asarray(v)
         return _relayout(v, lay.get(lkey or key, []))
+    def form(key, fkey, default):
+        fm = w.get(fkey, default)
+        return _to_form(w[key], fm) if fm in SCALAR_FORMS else w[key]
+
+    def factors():
+        fms = w.get('factor_forms') or ['float', 'float', 'float']
+        return [_to_form(w[k], fm) if fm in SCALAR_FORMS else w[k] for k, fm in zip(('z', 'r', 'n'), fms)]
+
     def run(f, *a, **k):
         # the witness of a call that raised (purity after the raise): the raise itself is not judged again
         if w.get('raised') is not None:
@@ -2504,25 +2826,23 @@ def replay(w):
         x0 = _to_form(w['x0'], xc) if xc in SCALAR_FORMS and xc != 'ndarray' else arr('x0', 'x0_container')
         run(eqsig.interp_left, x0, arr('x', 'x_container'), arr('y', 'y_container'))
     elif fn == 'calc_roll_av_vals':
-        run(eqsig.calc_roll_av_vals, arr('values', 'container'), w['steps'], mode=w['mode'])
+        run(eqsig.calc_roll_av_vals, arr('values', 'container'), form('steps', 'steps_form', 'int'), mode=w['mode'])
     elif fn == 'calc_step_fn_vals_error':
-        run(eqsig.calc_step_fn_vals_error, arr('values', 'container'), pow=w['pow'])
+        run(eqsig.calc_step_fn_vals_error, arr('values', 'container'), pow=form('pow', 'pow_form', 'int'))
     elif fn == 'calc_step_fn_steps_vals':
         vals = arr('values', 'container')
         if w.get('ind') is None:
             run(eqsig.calc_step_fn_steps_vals, vals)
         else:
-            run(eqsig.calc_step_fn_steps_vals, vals, w['ind'])
+            run(eqsig.calc_step_fn_steps_vals, vals, form('ind', 'ind_form', 'int'))
     elif fn == 'c_h_factor':
         pc = w.get('period_container')
         p = float(w['period']) if pc in ('float', 'float64') else arr('period', 'period_container')
         run(ds.c_h_factor, p, w['site_class'])
     elif fn == 'sd_nzs':
-        run(ds.sd_nzs, _to_form(w['period'], w.get('period_form', 'float')), w['site_class'], w['z'],
-              w['r'], w['n'])
+        run(ds.sd_nzs, _to_form(w['period'], w.get('period_form', 'float')), w['site_class'], *factors())
     elif fn == 't_eff':
-        run(ds.t_eff, _to_form(w['displacement'], w.get('displacement_form', 'float')), w['site_class'],
-              w['z'], w['r'], w['n'])
+        run(ds.t_eff, _to_form(w['displacement'], w.get('displacement_form', 'float')), w['site_class'], *factors())
     elif fn == 'triple':
         f = _fn_map(eqsig).get(w['name'])
         if f is None:
@@ -2537,6 +2857,21 @@ def replay(w):
         HELD.clear()
         triple(ctx, w['name'], f, a, b, kwa, kwb, pattern=w.get('pattern', ''), b_outside=w.get('b_outside'),
                inplace=None if pos is None else (pos, np.array(a[pos]), np.array(b[pos])))
+    elif fn == 'own':
+        f = _fn_map(eqsig).get(w['name'])
+        if f is None:
+            return ['unknown function %r in own witness' % w['name']]
+        sd = w['A']
+
+        def conv(v, fm):
+            if fm in SCALAR_FORMS and fm != 'ndarray':
+                return _to_form(v, fm)
+            if fm == 'ndarray':
+                return np.asarray(v)
+            return tuple(v) if fm == 'tuple' and isinstance(v, list) else v
+        HELD.clear()
+        own_case(ctx, w['name'], f, [conv(v, fm) for v, fm in zip(sd['args'], sd['forms'])],
+                 dict((k, conv(v, sd.get('kwforms', {}).get(k))) for k, v in sd['kwargs'].items()), pattern=w.get('pattern', ''))
     elif fn == 'held_result':
         f = _fn_map(eqsig).get(w['name'])
         if f is None:
@@ -2549,10 +2884,10 @@ def replay(w):
     elif fn == 'c_h_array_scalar':
         rel_array_scalar(ctx, eqsig, _as_container(w['periods'], w.get('container')), w['site_class'])
     elif fn == 't_eff_roundtrip':
-        rel_t_eff_roundtrip(ctx, eqsig, float(w['T']), w['site_class'], w['z'], w['r'], w['n'], kw=w.get('kw', False),
+        rel_t_eff_roundtrip(ctx, eqsig, float(w['T']), w['site_class'], *factors(), kw=w.get('kw', False),
                             form=w.get('form', 'float'))
     elif fn == 't_eff_above':
-        rel_t_eff_above(ctx, eqsig, float(w['factor']), w['site_class'], w['z'], w['r'], w['n'])
+        rel_t_eff_above(ctx, eqsig, float(w['factor']), w['site_class'], *factors())
     else:
         return ['unknown witness kind %r' % fn]
     return ['%s: %s' % (v['clause'], v['msg']) for v in ctx.violations if not v.get('finding')]
